@@ -3,4 +3,5 @@ package http
 var verifHarnesses = map[string]func(){
 	"VerifC18PosMapRoundTrip": VerifC18PosMapRoundTrip,
 	"VerifC18PosMapHostile":   VerifC18PosMapHostile,
+	"VerifC06StreamDB":        VerifC06StreamDB,
 }
